@@ -70,3 +70,24 @@ Fixpoint keys_of (t : vtable) : list pk :=
   | r :: t' => let ks := keys_of t' in
                if existsb (pk_eqb (vkey r)) ks then ks else vkey r :: ks
   end.
+
+Definition find_row (t : vtable) (k : pk) (tx : Z) : option vrow :=
+  find (fun r => same_key k r && (vtx r =? tx)) t.
+
+(* equality of two tables as sets of rows (both satisfy the table primary key) *)
+Definition table_eqb (t1 t2 : vtable) : bool :=
+  (length t1 =? length t2)%nat &&
+  forallb (fun r => match find_row t2 (vkey r) (vtx r) with
+                    | Some r' => vrow_eqb r r' | None => false end) t1.
+
+(* successor / predecessor of a row by position in the sorted version list (specification side) *)
+Fixpoint succ_in (l : vtable) (tx : Z) : option vrow :=
+  match l with
+  | [] => None
+  | x :: l' => if vtx x =? tx then hd_error l' else succ_in l' tx
+  end.
+Fixpoint pred_in (l : vtable) (tx : Z) : option vrow :=
+  match l with
+  | x :: ((y :: _) as l') => if vtx y =? tx then Some x else pred_in l' tx
+  | _ => None
+  end.
